@@ -12,7 +12,7 @@ From stdpp Require Import gmap strings.
 From EV Require Import Base.Str Model.Value Model.Keyspace Model.Reply Model.Prog Model.Dispatch Model.CmdGeneric.
 From EV Require Import Model.Script Model.ScriptExpiry.
 From EV Require Import Proofs.KeyspaceLemmas Proofs.ProgLemmas Proofs.ScriptLemmas Proofs.HandlerClasses.
-From EV Require Import Proofs.ExpiryProofs Proofs.ExpiryCmds Proofs.ExpiryInherit.
+From EV Require Import Proofs.ExpiryProofs Proofs.ExpiryCmds Proofs.ExpiryInherit Proofs.ExpiryRename.
 From EV Require Spec.SpecExpiry.
 Local Open Scope Z_scope.
 
@@ -117,7 +117,8 @@ Proof.
 Qed.
 Print Assumptions C04_unobservable_after_deadline.
 
-(** ** No inheritance.  For every command of every module other than the seven deadline words: a key
+(** ** No inheritance.  For every command of every module other than the seven deadline words and RENAME (whose
+    effect on deadlines is C04_rename_moves_deadline below): a key
     not visible before (never there, or deadline passed — whether or not the entry is still
     physically present) and visible after has no deadline; a key visible before and after has the
     deadline it had, or none (recreated). *)
@@ -137,6 +138,18 @@ Proof.
   intros name h argv d s d' k e0 e' Hh Hn Hm. apply nosx_keeps_deadline; [by eapply nx_every_handler|done].
 Qed.
 Print Assumptions C04_deadline_only_set_by_deadline_cmds.
+
+(** RENAME (the eighth word that calls SetExpiry): the deadline travels with the value.  The new name
+    gets exactly the entry (value and deadline, or absence of a deadline) the old name had — it does
+    not keep a deadline the replaced key had — the old name is gone, and no other key of the database
+    changes.  Corollary of the C01 refinement of RENAME to the reference map. *)
+Theorem C04_rename_moves_deadline : forall old new s d e,
+  st_maxmem s = 0 -> old <> new -> lentry s d old = Some e ->
+  let s' := fst (run_seq d (handle_rename ["RENAME"; old; new]) s) in
+  lentry s' d new = Some e /\ lentry s' d old = None /\
+  forall k, k <> old -> k <> new -> lentry s' d k = lentry s d k.
+Proof. exact rename_moves_deadline. Qed.
+Print Assumptions C04_rename_moves_deadline.
 
 (** For the deadline words themselves the reference says it: on a key that is not visible, the only
     command that creates an entry is SET, and its deadline is the one given in that very command. *)
